@@ -80,10 +80,19 @@ def main():
         m = json.load(open(mp)) if os.path.exists(mp) else {}
         m["final_evaluation"] = dict({k: v for k, v in r.items() if k != "name"}, **heads)
         json.dump(m, open(mp, "w"), indent=1)
-    summary = {"heads": heads, "total": len(results), "caught": sum(1 for r in results if r.get("caught")),
-               "concrete": sum(1 for r in results if r.get("caught_with_concrete_input")),
-               "not_caught": sorted(r["name"] for r in results if not r.get("caught")),
-               "no_concrete_input": sorted(r["name"] for r in results if r.get("caught") and not r.get("caught_with_concrete_input"))}
+    # the summary covers every stored seed (a partial re-run with ONLY= updates its seeds only)
+    allres = []
+    for d in sorted(glob.glob(os.path.join(VERIF, "seeded", "*"))):
+        mp = os.path.join(d, "meta.json")
+        if os.path.exists(mp) and os.path.exists(os.path.join(d, "patch.diff")):
+            fe = json.load(open(mp)).get("final_evaluation")
+            if fe:
+                allres.append(dict(fe, name=os.path.basename(d)))
+    summary = {"heads": heads, "total": len(allres), "caught": sum(1 for r in allres if r.get("caught")),
+               "concrete": sum(1 for r in allres if r.get("caught_with_concrete_input")),
+               "patch_no_longer_applies": sorted(r["name"] for r in allres if r.get("applies") is False),
+               "not_caught": sorted(r["name"] for r in allres if not r.get("caught") and r.get("applies") is not False),
+               "no_concrete_input": sorted(r["name"] for r in allres if r.get("caught") and not r.get("caught_with_concrete_input"))}
     json.dump(summary, open(os.path.join(VERIF, "seeded", "FINAL.json"), "w"), indent=1)
     print(json.dumps(summary, indent=1))
 
